@@ -95,7 +95,7 @@ pub struct InvSpec {
     #[serde(default)]
     pub hint: bool,
     /// explicit hops of the route hint, first to last: 'L' = the local node, 'O' = another node
-    /// ("" = use `hint`); e.g. "OL" = local node last, "LO" = local node first
+    /// ("" = use `hint`); e.g. "OL" = local node last, "LO" = local node first; ',' separates several hints
     #[serde(default)]
     pub hops: String,
     /// payee key index (signer)
@@ -142,7 +142,10 @@ pub fn invoice_bytes(spec: &InvSpec) -> Vec<u8> {
             short_channel_id: k,
             src_node_id: if c == 'L' { local_pubkey() } else { payee_pub(3) },
         };
-        b = b.private_route(RouteHint(hops.chars().enumerate().map(|(k, c)| hop(c, k as u64)).collect()));
+        // several route hints are separated by ',' ("O,OL": two hints, the local node last in the second)
+        for (n, hint) in hops.split(',').enumerate() {
+            b = b.private_route(RouteHint(hint.chars().enumerate().map(|(k, c)| hop(c, (n * 16 + k) as u64)).collect()));
+        }
     }
     let signer = payee_key(spec.payee);
     let s = match spec.form.as_str() {
